@@ -546,7 +546,7 @@ theorem linv_json {own : String} {s s' : LState} {f : Bool} (h : LInv own s) (hg
         · rfl
         · exact qok_same hq rfl rfl
         · intro _ hw
-          show s.queue ≠ [] ∨ sleepsAfter s.cycDelays (changedUnwritten s.cycMerge s.cycChanges s.cycUserFns p.fns) = true
+          show s.queue ≠ [] ∨ sleepsAfter s.cycDelays (changedUnwritten s.cycMerge s.cycChanges (applyFns own p.fns p.view != p.view)) = true
           by_cases hfresh : s.base.rv = s.cycViewRv
           · obtain ⟨h4b, h4a⟩ := j4 p hp hfresh
             by_cases hnil : p.fns = []
@@ -557,7 +557,7 @@ theorem linv_json {own : String} {s s' : LState} {f : Bool} (h : LInv own s) (hg
                   · rfl
                   · exact absurd hfresh (j3 p hp hc)
                 right
-                cases hcm : s.cycMerge <;> simp [sleepsAfter, changedUnwritten, hnil, hcc, j9 p hp]
+                cases hcm : s.cycMerge <;> simp [sleepsAfter, changedUnwritten, hnoop, hcc]
             · exact absurd hnoop (fns_change own p.fns p.view h4b h4a hnil)
           · exact Or.inl (j5 p hp hfresh)
         all_goals (intro p' hp'; simp at hp')
